@@ -46,6 +46,7 @@ K_UNKNOWN_DOWN = "host-of-unknown-state-marked-down-without-reconnector"
 K_ORPHAN = "reconnection-handler-completion-clears-the-slot-of-a-newer-handler-two-series"
 K_STALE_CLEANUP = "failed-on-up-of-a-removed-host-object-tears-down-the-readded-host-of-the-same-address"
 K_ONUP_OVERLAP = "on-up-past-its-membership-test-continues-after-a-concurrent-removal"
+K_READD_FAIL = "on-add-repeated-by-host-addition-reconnector-fails-host-left-down-without-reconnector"
 K_ONUP_STUCK = "on-up-completion-callback-races-with-futures-set-host-never-marked-up"
 
 
@@ -266,6 +267,23 @@ def run_history(seed):
     watched_gas._c25_watch = True
     watched_gas._c25_orig = orig_gas
     _pool.Host.get_and_set_reconnection_handler = watched_gas
+    # ... and Host.set_down / set_up: from which state a host object was last marked down (None = its state was still unknown)
+    down_from = {}
+    orig_sd, orig_su = _pool.Host.set_down, _pool.Host.set_up
+    if getattr(orig_sd, '_c25_watch', False):
+        orig_sd, orig_su = orig_sd._c25_orig, orig_su._c25_orig
+
+    def watched_set_down(self):
+        if self.is_up is not False:
+            down_from[id(self)] = self.is_up
+        return orig_sd(self)
+
+    def watched_set_up(self):
+        down_from.pop(id(self), None)
+        return orig_su(self)
+    watched_set_down._c25_watch = watched_set_up._c25_watch = True
+    watched_set_down._c25_orig, watched_set_up._c25_orig = orig_sd, orig_su
+    _pool.Host.set_down, _pool.Host.set_up = watched_set_down, watched_set_up
 
     with env:
         def plain_policy():
@@ -310,6 +328,17 @@ def run_history(seed):
             # was an on_up(host) call under way while on_remove(host) ran (either one entered while the other had not returned yet)?
             if hid in removal_during_on_up_handling:
                 return True
+            # no on_up call for the object entered after its on_remove had returned and still reached the policy (that is what the membership
+            # test of on_up prevents): then the pool creation was decided before / while the removal ran (on_up, on_add, update_created_pools
+            # iterate a snapshot of the hosts and run_add_or_renew_pool does not look at the membership)
+            rm_done = [i_ for i_, c_ in enumerate(state_calls) if c_ == ('on_remove', 'exit', hid)]
+            if rm_done:
+                late_enter = any(c_ == ('on_up', 'enter', hid) for c_ in state_calls[rm_done[0]:])
+                told = [i_ for i_, n_ in enumerate(notes) if n_[1] == 'policy' and n_[4] == hid]
+                rm_note = [i_ for i_ in told if notes[i_][2] == 'remove']
+                up_after = bool(rm_note) and any(notes[i_][2] == 'up' for i_ in told if i_ > rm_note[0])
+                if not (late_enter and up_after):
+                    return True
             open_up = open_rm = 0
             for name_, what_, h_ in state_calls:
                 if h_ != hid:
@@ -378,6 +407,12 @@ def run_history(seed):
             mine_ = [c for c in env.net.conns if c.sim_creator == 'pool-init' and str(c.endpoint.address) == h_.endpoint.address and c.sim_id >= mark_]
             return not mine_ or any(getattr(c, 'peer', None) is not None and c.peer.ready for c in mine_)
 
+        def readd_attempt_failed(h_):
+            # the policy was told on_add for this host object a second time (the host-addition reconnector connected and called Cluster.on_add again)
+            # and has heard nothing about it since: that second on_add did not complete
+            mine_ = [n_[2] for n_ in notes if n_[1] == 'policy' and n_[4] == id(h_)]
+            return mine_.count('add') >= 2 and mine_[-1] == 'add'
+
         def held_by_address(a_):
             return any((not hh.done) and hh.req['op'] == 'OPTIONS' and hh.node.address == a_ and not hh.conn.is_closed and hh.conn.sim_creator == 'reconnector'
                        for hh in env.net.held)
@@ -416,7 +451,8 @@ def run_history(seed):
                                                    'last_handler_was_for_host_addition': last_handler_addition(id(h)), 'state_was_unknown_before_and_never_up_since': id(h) in seen_unknown,
                                                    'listeners_ever_told_add_or_up': any(n[1] == 'listener' and n[4] == id(h) and n[2] in ('add', 'up') for n in notes),
                                                    'state_was_unknown_before_and_never_up_since': id(h) in seen_unknown,
-                                                   'host_object_had_a_connected_pool': had_a_pool_connection(h)}))
+                                                   'host_object_had_a_connected_pool': had_a_pool_connection(h), 'marked_down_from_unknown_state': down_from.get(id(h), 'n/a') is None,
+                                                   'on_add_repeated_by_the_reconnector_did_not_complete': readd_attempt_failed(h)}))
                     elif h.is_up and n_live and label != 'final':
                         stray_seen.setdefault(id(h), w.now)
                     elif h.is_up and n_live and label == 'final':
@@ -425,7 +461,8 @@ def run_history(seed):
                 for hid, hs in live.items():
                     if hid not in mem_ids:
                         viol.append(('removed-host-still-has-reconnector', "a reconnection handler for removed host %s is still scheduled at t=%.2f (%s)" % (
-                            hs[0].host.endpoint.address, w.now, label), {'handler_started_after_removal': handler_started_after_removal(hid)}))
+                            hs[0].host.endpoint.address, w.now, label), {'handler_started_after_removal': handler_started_after_removal(hid),
+                                                                         'every_such_handler_had_lost_the_hosts_slot_before': all(id(x) in orphaned for x in hs)}))
 
         def request(session, host, act='rows'):
             uid = next(uids)
@@ -661,7 +698,8 @@ def run_history(seed):
                     viol.append(('host-not-up-at-final-quiescence', "host %s has is_up=%r although its node has been healthy for 37 virtual seconds" % (a, h.is_up),
                                  {'live_handlers': len(live.get(id(h), ())), 'handling_node_up_flag': h._currently_handling_node_up, 'sessions': n_sessions,
                                   'never_a_handler': last_handler_addition(id(h)) is None, 'last_handler_was_for_host_addition': last_handler_addition(id(h)),
-                                  'state_was_unknown_before_and_never_up_since': id(h) in seen_unknown, 'host_object_had_a_connected_pool': had_a_pool_connection(h),
+                                  'state_was_unknown_before_and_never_up_since': id(h) in seen_unknown, 'host_object_had_a_connected_pool': had_a_pool_connection(h), 'marked_down_from_unknown_state': down_from.get(id(h), 'n/a') is None,
+                                  'on_add_repeated_by_the_reconnector_did_not_complete': readd_attempt_failed(h),
                                   'listeners_ever_told_add_or_up': any(n[1] == 'listener' and n[4] == id(h) and n[2] in ('add', 'up') for n in notes),
                                   'reconnection_handler_set': h._reconnection_handler is not None}))
                 # what the observers were last told about this host object
@@ -681,7 +719,8 @@ def run_history(seed):
                                      {'who': who, 'handling_node_up_flag': h._currently_handling_node_up, 'live_handlers': len(live.get(id(h), ())), 'sessions': n_sessions,
                                       'last': last[-1][2], 'never_a_handler': last_handler_addition(id(h)) is None,
                                       'last_handler_was_for_host_addition': last_handler_addition(id(h)), 'state_was_unknown_before_and_never_up_since': id(h) in seen_unknown, 'reconnection_handler_set': h._reconnection_handler is not None,
-                                      'host_object_had_a_connected_pool': had_a_pool_connection(h),
+                                      'host_object_had_a_connected_pool': had_a_pool_connection(h), 'marked_down_from_unknown_state': down_from.get(id(h), 'n/a') is None,
+                                      'on_add_repeated_by_the_reconnector_did_not_complete': readd_attempt_failed(h),
                                       'listeners_ever_told_add_or_up': any(n[1] == 'listener' and n[4] == id(h) and n[2] in ('add', 'up') for n in notes)}))
                 if h.is_up and not ignored(h):
                     for si, s in enumerate(sessions):
@@ -744,7 +783,7 @@ def run_history(seed):
             late = [c for c in env.net.conns[lo:hi] if c.sim_creator == 'pool-init' and str(c.endpoint.address) == n[3]]
             if late:
                 viol.append(('pool-connection-to-removed-host', "a pool connection to removed host %s (connection %d) was opened at t=%.2f, after listeners had been told on_remove at t=%.2f" % (
-                    n[3], late[0].sim_id, late[0].sim_created_at, n[0]), {'connections': len(late), 'an_on_up_call_was_under_way_while_on_remove_ran': on_up_overlapped_removal(n[4])}))
+                    n[3], late[0].sim_id, late[0].sim_created_at, n[0]), {'connections': len(late), 'pool_creation_was_decided_before_the_removal_finished': on_up_overlapped_removal(n[4])}))
         # removed hosts are never reconnected: after listeners were told on_remove(host), no attempt is scheduled any more by a handler of that host object
         # (by object, not by address: the address may be added again as a new Host while the removal is still being announced)
         for n in [x for x in notes if x[1] == 'listener' and x[2] == 'remove']:
@@ -764,11 +803,14 @@ def run_history(seed):
         cluster.shutdown()
         w.settle(until=w.now + 30.0)
     _pool.Host.get_and_set_reconnection_handler = orig_gas
+    _pool.Host.set_down, _pool.Host.set_up = orig_sd, orig_su
     return viol, counters, info, trace, env
 
 
 def classify(v, info):
     mech, what, d = v
+    if mech == 'observer-not-told-up' and d.get('last') == 'down' and d.get('previous') == 'up' and d.get('previous_at_same_instant'):
+        return K_STRAY           # an on_down overtaken by an on_up that finished completely before on_down told its observers (any number of sessions)
     if mech == 'observer-not-told-up' and d.get('who') == 'listener' and d.get('pools_needed') == 0 and d.get('last') == 'down':
         return K_ITEM31
     if mech == 'up-host-without-pool' and d.get('pool') is None and d.get('policy_told_down_for_an_older_object_of_this_address_after_this_object_was_added'):
@@ -783,8 +825,13 @@ def classify(v, info):
     if mech == 'down-host-without-reconnector' and d.get('sessions', 0) >= 2 and d.get('a_session_has_an_open_pool') and d.get('last_handler_was_for_host_addition') \
             and not d.get('host_reconnection_handler_set'):
         return K_ADD_PARTIAL
+    if mech in ('down-host-without-reconnector', 'host-not-up-at-final-quiescence', 'observer-not-told-down') and d.get('last_handler_was_for_host_addition') \
+            and d.get('on_add_repeated_by_the_reconnector_did_not_complete') and not d.get('host_reconnection_handler_set', d.get('reconnection_handler_set')) \
+            and d.get('live_handlers', 0) == 0 and d.get('last', 'add') == 'add' and d.get('who', 'policy') == 'policy':
+        return K_READD_FAIL
     if mech == 'down-host-without-reconnector' and d.get('last_handler_was_for_host_addition') is None and d.get('host_object_had_a_connected_pool') \
-            and (not d.get('listeners_ever_told_add_or_up') or d.get('state_was_unknown_before_and_never_up_since')) and not d.get('host_reconnection_handler_set'):
+            and (not d.get('listeners_ever_told_add_or_up') or d.get('state_was_unknown_before_and_never_up_since') or d.get('marked_down_from_unknown_state')) \
+            and not d.get('host_reconnection_handler_set'):
         # (the known mechanism is a host of unknown state whose ESTABLISHED pool fails later; a host whose very first pool connect fails must get
         # its host-addition reconnector and is not covered by this slug)
         return K_UNKNOWN_DOWN
@@ -792,15 +839,17 @@ def classify(v, info):
         return K_STRAY           # same interleaving, the on_up finished completely before on_down told its observers
     if mech == 'two-live-reconnectors-for-one-host' and d.get('a_live_handler_lost_its_slot_to_another_handlers_completion'):
         return K_ORPHAN
+    if mech == 'removed-host-still-has-reconnector' and d.get('every_such_handler_had_lost_the_hosts_slot_before') and not d.get('handler_started_after_removal'):
+        return K_ORPHAN          # the series that lost the host's slot is invisible to on_remove as well: it survives the removal
     if mech in ('host-not-up-at-final-quiescence', 'observer-not-told-down') and d.get('never_a_handler') and not d.get('reconnection_handler_set') \
             and d.get('host_object_had_a_connected_pool') and d.get('last', 'add') == 'add' and ((not d.get('listeners_ever_told_add_or_up') and d.get('who', 'policy') == 'policy')
-                                                   or d.get('state_was_unknown_before_and_never_up_since')):
+                                                   or d.get('state_was_unknown_before_and_never_up_since') or d.get('marked_down_from_unknown_state')):
         return K_UNKNOWN_DOWN
     if mech in ('host-not-up-at-final-quiescence', 'observer-not-told-down') and d.get('last_handler_was_for_host_addition') and d.get('sessions', 0) >= 2 \
             and not d.get('listeners_ever_told_add_or_up') and not d.get('reconnection_handler_set') and d.get('live_handlers') == 0 \
             and d.get('who', 'policy') == 'policy' and d.get('last', 'add') == 'add':
         return K_ADD_PARTIAL
-    if mech == 'pool-connection-to-removed-host' and d.get('an_on_up_call_was_under_way_while_on_remove_ran'):
+    if mech == 'pool-connection-to-removed-host' and d.get('pool_creation_was_decided_before_the_removal_finished'):
         return K_ONUP_OVERLAP
     if mech == 'notified-up-after-remove' and (d.get('handler_started_after_removal') or d.get('on_up_scheduled_by_a_status_event_around_the_removal')):
         return K_REMOVED_RESTART
